@@ -8,7 +8,7 @@
    Only [roundtrip*] assume anything about them (the round-trip law [codec_law], validated on the
    real libraries by every correspondence run); the limit, rejection and pass-through theorems hold
    for EVERY behaviour of the decoders, i.e. also for adversarial bodies.                       *)
-From Verif Require Import Common.Base C16.Model C16.Proofs C16.Witness.
+From Verif Require Import Common.Base C16.Model C16.Proofs C16.Witness Generated.C16Tables Generated.C16Params C16.Tie.
 From Coq Require Import String.
 
 (* ---- clause 1a: round trip ----------------------------------------------------------------------
@@ -19,14 +19,14 @@ From Coq Require Import String.
 Theorem roundtrip : forall enc dec cdec, codec_law enc dec ->
   forall cc sc r c,
   client_validate cc = true -> is_compressed cc.(c_type) = true -> writer_codec cc.(c_type) = Some c ->
-  r.(q_ce) = [] -> body_ok r = true ->
+  hdr_compatible cc -> r.(q_ce) = [] -> r.(q_raw) = [] -> body_ok r = true ->
   In cc.(c_type) (eff_algs sc) -> ~ In cc.(c_type) (map fst sc.(s_custom)) ->
   let b := body_bytes r.(q_body) in
   let wire := enc c (writer_level c (effective_level cc.(c_level))) b in
   (Z.of_nat (List.length b) <= eff_max sc)%Z ->
   (Z.of_nat (List.length wire) <= eff_max sc)%Z ->
   e2e enc dec cdec cc sc r = Some (Handled [] (-1) (b, E_EOF)).
-Proof. exact roundtrip_l. Qed.
+Proof. exact roundtrip_e2e_full_l. Qed.
 Print Assumptions roundtrip.
 
 (* default server settings: every compressing type a configuration file can name (gzip, zlib,
@@ -34,7 +34,7 @@ Print Assumptions roundtrip.
 Theorem roundtrip_default_server : forall enc dec cdec, codec_law enc dec ->
   forall cc mx r,
   type_known cc.(c_type) = true -> is_compressed cc.(c_type) = true -> client_validate cc = true ->
-  r.(q_ce) = [] -> body_ok r = true ->
+  hdr_compatible cc -> r.(q_ce) = [] -> r.(q_raw) = [] -> body_ok r = true ->
   let sc := {| s_max := mx; s_algs := None; s_custom := [] |} in
   exists c : codec, writer_codec cc.(c_type) = Some c /\
     (let b := body_bytes r.(q_body) in
@@ -42,14 +42,15 @@ Theorem roundtrip_default_server : forall enc dec cdec, codec_law enc dec ->
      ((Z.of_nat (List.length b) <= eff_max sc)%Z ->
       (Z.of_nat (List.length wire) <= eff_max sc)%Z ->
       e2e enc dec cdec cc sc r = Some (Handled [] (-1) (b, E_EOF)))).
-Proof. exact roundtrip_default_l. Qed.
+Proof. exact roundtrip_default_full_l. Qed.
 Print Assumptions roundtrip_default_server.
 
 (* the two size hypotheses and the no-preset hypothesis of [roundtrip] cannot be dropped: *)
 (* (a) the body fits but its compressed form does not: the raw body is cut by the outer interceptor *)
 Theorem roundtrip_without_wire_bound_refuted :
   exists enc dec cdec cc sc r, codec_law enc dec /\
-    client_validate cc = true /\ is_compressed cc.(c_type) = true /\ r.(q_ce) = [] /\ body_ok r = true /\
+    client_validate cc = true /\ is_compressed cc.(c_type) = true /\ cc.(c_hdr) = None /\ r.(q_raw) = [] /\
+    r.(q_ce) = [] /\ body_ok r = true /\
     In cc.(c_type) (eff_algs sc) /\ ~ In cc.(c_type) (map fst sc.(s_custom)) /\
     (Z.of_nat (List.length (body_bytes r.(q_body))) <= eff_max sc)%Z /\
     e2e enc dec cdec cc sc r <> Some (Handled [] (-1) (body_bytes r.(q_body), E_EOF)).
@@ -60,7 +61,8 @@ Print Assumptions roundtrip_without_wire_bound_refuted.
    through undecoded by the server *)
 Theorem roundtrip_empty_preset_value_refuted :
   exists enc dec cdec cc sc r, codec_law enc dec /\
-    client_validate cc = true /\ is_compressed cc.(c_type) = true /\ hget r.(q_ce) = s_empty /\ body_ok r = true /\
+    client_validate cc = true /\ is_compressed cc.(c_type) = true /\ cc.(c_hdr) = None /\ r.(q_raw) = [] /\
+    hget r.(q_ce) = s_empty /\ body_ok r = true /\
     In cc.(c_type) (eff_algs sc) /\ ~ In cc.(c_type) (map fst sc.(s_custom)) /\
     (Z.of_nat (List.length (body_bytes r.(q_body))) <= eff_max sc)%Z /\
     (forall c, Z.of_nat (List.length (enc c (-1)%Z (body_bytes r.(q_body)))) <= eff_max sc)%Z /\
@@ -70,12 +72,12 @@ Print Assumptions roundtrip_empty_preset_value_refuted.
 
 (* ---- clause 1b: no content encoding => untouched ------------------------------------------------- *)
 Theorem identity_passthrough : forall enc dec cdec cc sc r,
-  is_compressed cc.(c_type) = false -> hget r.(q_ce) = s_empty ->
+  is_compressed cc.(c_type) = false -> cc.(c_hdr) = None -> r.(q_raw) = [] -> hget r.(q_ce) = s_empty ->
   In s_empty (eff_algs sc) -> ~ In s_empty (map fst sc.(s_custom)) ->
   let b := body_bytes r.(q_body) in
   (Z.of_nat (List.length b) <= eff_max sc)%Z ->
   e2e enc dec cdec cc sc r = Some (Handled r.(q_ce) (if r.(q_stream) then (-1)%Z else blen b) (b, E_EOF)).
-Proof. exact identity_e2e_l. Qed.
+Proof. exact identity_e2e_full_l. Qed.
 Print Assumptions identity_passthrough.
 
 Theorem identity_passthrough_server : forall dec cdec sc w,
@@ -178,7 +180,7 @@ Print Assumptions limit_holds.
 (* ... in particular for whatever any client configuration sends *)
 Theorem limit_holds_end_to_end : forall enc dec cdec cc sc r ce cl s,
   e2e enc dec cdec cc sc r = Some (Handled ce cl s) -> (Z.of_nat (List.length (fst s)) <= eff_max sc)%Z.
-Proof. exact limit_holds_e2e_l. Qed.
+Proof. exact limit_holds_e2e_full_l. Qed.
 Print Assumptions limit_holds_end_to_end.
 
 Theorem limit_is_positive : forall sc, (0 < eff_max sc)%Z.
@@ -233,20 +235,65 @@ Print Assumptions server_ignores_declared_length.
 
 (* ---- the client ------------------------------------------------------------------------------------ *)
 Theorem preset_encoding_not_recompressed : forall enc cc r w,
-  hget r.(q_ce) <> s_empty -> client enc cc r = CSent w -> w = plain r.
-Proof. exact preset_not_recompressed_l. Qed.
+  hget r.(q_ce) <> s_empty -> client enc cc r = CSent w ->
+  w = on_wire cc r (plain r) /\ w.(w_body) = body_bytes r.(q_body).
+Proof. exact preset_not_recompressed_full_l. Qed.
 Print Assumptions preset_encoding_not_recompressed.
 
 Theorem preset_encoding_sent_as_is : forall enc cc r,
-  hget r.(q_ce) <> s_empty -> client enc cc r = CRefused \/ client enc cc r = CSent (plain r).
+  hget r.(q_ce) <> s_empty -> client_rt enc cc r = CRefused \/ client_rt enc cc r = CSent (plain r).
 Proof. exact preset_sent_l. Qed.
 Print Assumptions preset_encoding_sent_as_is.
+
+(* ---- the client chain as ToClient builds it: compressor, THEN the headers round tripper ------------
+   [client] is the whole chain (compressRoundTripper ; headerRoundTripper ; the receiver's
+   canonicalisation of header keys); [client_rt] the chain up to and including the compressor.
+   A Content-Encoding configured under `headers:` (any spelling of the key) replaces what the compressor
+   or the caller put there: the server sees exactly that value, over whatever body the compressor
+   produced. *)
+Theorem configured_content_encoding_header_wins : forall enc cc r w v,
+  cc.(c_hdr) = Some v -> client enc cc r = CSent w -> w.(w_ce) = v :: r.(q_raw).
+Proof. exact configured_header_wins_l. Qed.
+Print Assumptions configured_content_encoding_header_wins.
+
+Theorem headers_round_tripper_keeps_body : forall enc cc r w,
+  client enc cc r = CSent w ->
+  exists w0, client_rt enc cc r = CSent w0 /\ w.(w_body) = w0.(w_body) /\ w.(w_cl) = w0.(w_cl) /\
+             w.(w_rewind) = w0.(w_rewind) /\ w.(w_ce) = headers_rt cc w0.(w_ce) ++ r.(q_raw).
+Proof. exact chain_keeps_body_l. Qed.
+Print Assumptions headers_round_tripper_keeps_body.
+
+(* hence a configured Content-Encoding other than the compression type breaks the round trip although
+   every other hypothesis of [roundtrip] holds (witness: `headers: {Content-Encoding: ""}` with gzip:
+   the handler reads the COMPRESSED bytes).  A configuration-validation gap: ClientConfig.Validate
+   accepts it. *)
+Theorem roundtrip_with_configured_encoding_header_refuted :
+  exists enc dec cdec cc sc r c, codec_law enc dec /\
+    client_validate cc = true /\ is_compressed cc.(c_type) = true /\ writer_codec cc.(c_type) = Some c /\
+    cc.(c_hdr) <> None /\ r.(q_ce) = [] /\ r.(q_raw) = [] /\ body_ok r = true /\
+    In cc.(c_type) (eff_algs sc) /\ ~ In cc.(c_type) (map fst sc.(s_custom)) /\
+    (Z.of_nat (List.length (body_bytes r.(q_body))) <= eff_max sc)%Z /\
+    (forall l, Z.of_nat (List.length (enc c l (body_bytes r.(q_body)))) <= eff_max sc)%Z /\
+    exists ce cl s, e2e enc dec cdec cc sc r = Some (Handled ce cl s) /\ fst s <> body_bytes r.(q_body).
+Proof. exact configured_header_breaks_roundtrip_l. Qed.
+Print Assumptions roundtrip_with_configured_encoding_header_refuted.
+
+(* a Content-Encoding that the caller stored under a non-canonical spelling of the key (header map entry
+   "content-encoding") is invisible to the compressor's Header.Get: the body is compressed AGAIN, and the
+   receiver — which canonicalises keys — sees the compressor's value first *)
+Theorem noncanonical_preset_is_recompressed : forall enc cc r c,
+  client_validate cc = true -> is_compressed cc.(c_type) = true -> writer_codec cc.(c_type) = Some c ->
+  cc.(c_hdr) = None -> r.(q_ce) = [] -> body_ok r = true ->
+  let buf := enc c (writer_level c (effective_level cc.(c_level))) (body_bytes r.(q_body)) in
+  client enc cc r = CSent {| w_ce := cc.(c_type) :: r.(q_raw); w_body := buf; w_cl := blen buf; w_rewind := Some buf |}.
+Proof. exact noncanonical_preset_recompressed_l. Qed.
+Print Assumptions noncanonical_preset_is_recompressed.
 
 Theorem client_compresses : forall enc cc r c,
   client_validate cc = true -> is_compressed cc.(c_type) = true -> writer_codec cc.(c_type) = Some c ->
   hget r.(q_ce) = s_empty -> body_ok r = true ->
   let buf := enc c (writer_level c (effective_level cc.(c_level))) (body_bytes r.(q_body)) in
-  client enc cc r = CSent {| w_ce := r.(q_ce) ++ [cc.(c_type)]; w_body := buf; w_cl := blen buf; w_rewind := Some buf |}.
+  client_rt enc cc r = CSent {| w_ce := r.(q_ce) ++ [cc.(c_type)]; w_body := buf; w_cl := blen buf; w_rewind := Some buf |}.
 Proof. exact client_compresses_l. Qed.
 Print Assumptions client_compresses.
 
@@ -254,7 +301,7 @@ Print Assumptions client_compresses.
 Theorem client_body_error_sends_nothing : forall enc cc r c,
   client_validate cc = true -> is_compressed cc.(c_type) = true -> writer_codec cc.(c_type) = Some c ->
   hget r.(q_ce) = s_empty -> body_ok r = false -> client enc cc r = CError.
-Proof. exact client_body_error_l. Qed.
+Proof. exact client_body_error_full_l. Qed.
 Print Assumptions client_body_error_sends_nothing.
 
 (* ---- transport-level replay (net/http rewinds the body with GetBody and sends the request again:
@@ -263,26 +310,26 @@ Print Assumptions client_body_error_sends_nothing.
    request can always be replayed; hence the round trip holds under any number of replays. *)
 Theorem replay_sends_the_same_request : forall enc cc r w w',
   client enc cc r = CSent w -> replay w = Some w' -> w' = w.
-Proof. exact replay_same_request_l. Qed.
+Proof. exact replay_same_request_full_l. Qed.
 Print Assumptions replay_sends_the_same_request.
 
 Theorem compressed_request_is_replayable : forall enc cc r c w,
   client_validate cc = true -> is_compressed cc.(c_type) = true -> writer_codec cc.(c_type) = Some c ->
   hget r.(q_ce) = s_empty -> client enc cc r = CSent w -> replay w = Some w.
-Proof. exact compressed_request_replayable_l. Qed.
+Proof. exact compressed_request_replayable_full_l. Qed.
 Print Assumptions compressed_request_is_replayable.
 
 Theorem roundtrip_under_replay : forall enc dec cdec, codec_law enc dec ->
   forall cc sc r c,
   client_validate cc = true -> is_compressed cc.(c_type) = true -> writer_codec cc.(c_type) = Some c ->
-  r.(q_ce) = [] -> body_ok r = true ->
+  hdr_compatible cc -> r.(q_ce) = [] -> r.(q_raw) = [] -> body_ok r = true ->
   In cc.(c_type) (eff_algs sc) -> ~ In cc.(c_type) (map fst sc.(s_custom)) ->
   let b := body_bytes r.(q_body) in
   let wire := enc c (writer_level c (effective_level cc.(c_level))) b in
   (Z.of_nat (List.length b) <= eff_max sc)%Z ->
   (Z.of_nat (List.length wire) <= eff_max sc)%Z ->
   exists w, client enc cc r = CSent w /\ replay w = Some w /\ server dec cdec sc w = Handled [] (-1) (b, E_EOF).
-Proof. exact roundtrip_under_replay_l. Qed.
+Proof. exact roundtrip_full_l. Qed.
 Print Assumptions roundtrip_under_replay.
 
 Theorem writer_and_reader_agree : forall t c, writer_codec t = Some c -> slot_of_name t = Some (SCodec c).
@@ -310,3 +357,60 @@ Theorem lserver_sound : forall dec cdec sc w,
   lserver sc (fun c => ldabs (dec c body1)) (fun i => ldabs (cdec i body1)) (w_ce w) (Z.of_nat (List.length (w_body w))) (w_cl w).
 Proof. exact lserver_sound_l. Qed.
 Print Assumptions lserver_sound.
+
+(* ==== TIE OBLIGATIONS: the hand-written definitions of Model.v equal what the CURRENT Go source says ====
+   Generated/C16Tables.v is rewritten on every run by running the current code on the whole (finite, or
+   windowed for the level) domain of each function; Generated/C16Params.v by translator T1. *)
+Theorem tie_is_compressed :
+  forallb (fun p => Bool.eqb (is_compressed (fst p)) (snd p)) T_IsCompressed = true.
+Proof. exact tie_is_compressed_l. Qed.
+Print Assumptions tie_is_compressed.
+
+Theorem tie_unmarshal_text :
+  forallb (fun p => Bool.eqb (type_known (fst p)) (snd p)) T_Unmarshal = true.
+Proof. exact tie_unmarshal_text_l. Qed.
+Print Assumptions tie_unmarshal_text.
+
+Theorem tie_validate_params :
+  forallb (fun p => Bool.eqb (validate_params (fst (fst p)) (snd (fst p))) (snd p)) T_ValidateParams = true.
+Proof. exact tie_validate_params_l. Qed.
+Print Assumptions tie_validate_params.
+
+Theorem tie_default_level : effective_level 0 = T_DefaultLevel.
+Proof. exact tie_default_level_l. Qed.
+Print Assumptions tie_default_level.
+
+Theorem tie_client_validate :
+  forallb (fun p => Bool.eqb (client_validate {| c_type := fst (fst p); c_level := snd (fst p); c_hdr := None |}) (snd p))
+          T_ClientValidate = true.
+Proof. exact tie_client_validate_l. Qed.
+Print Assumptions tie_client_validate.
+
+Theorem tie_writer_dispatch :
+  forallb (fun p => optN_eqb (option_map codec_num (writer_codec (fst p))) (snd p)) T_Writer = true.
+Proof. exact tie_writer_dispatch_l. Qed.
+Print Assumptions tie_writer_dispatch.
+
+Theorem tie_available_decoders :
+  forallb (fun p => optN_eqb (option_map slot_num (available (fst p))) (snd p)) T_Available = true /\
+  T_AvailableKeys = 6%N.
+Proof. exact tie_available_decoders_l. Qed.
+Print Assumptions tie_available_decoders.
+
+Theorem tie_enabled_map :
+  forallb (fun p => optN_eqb (option_map slot_num
+                                (tget (decoders {| s_max := 0; s_algs := Some (fst (fst p)); s_custom := [] |}) (snd (fst p))))
+                             (snd p)) T_Enabled = true /\
+  T_EnabledUnknownKey = [].
+Proof. exact tie_enabled_map_l. Qed.
+Print Assumptions tie_enabled_map.
+
+Theorem tie_server_defaults :
+  default_max = T_DefaultMax /\ default_algs = T_DefaultAlgs /\ default_algs = T_EffAlgsNil /\
+  forallb (fun p => Z.eqb (eff_max {| s_max := fst p; s_algs := None; s_custom := [] |}) (snd p)) T_EffMax = true.
+Proof. exact tie_server_defaults_l. Qed.
+Print Assumptions tie_server_defaults.
+
+Theorem tie_new_compression_params : forall l : Z, newCompressionParams l = l.
+Proof. exact tie_new_compression_params_l. Qed.
+Print Assumptions tie_new_compression_params.
